@@ -3,3 +3,4 @@ pub mod image;
 pub mod strings;
 pub mod text;
 pub mod lz;
+pub mod containers;
